@@ -74,9 +74,10 @@ reg('C10', ['u_iter'],
     'set_offset/with_offset(o): o on a char boundary or beyond the input => cursor at min(o, len) on that boundary, offset field clamped, mode/scanner/line_offsets unchanged, nothing else of the old cursor survives (fm_inv re-established from the arguments only); advance_to(p) with p the end of a peeked match lands exactly on p, absolute (lemma_adv_target_boundary); next_match/peek_n contracts are functions of the abstract state only',
     [ITER, UTF8, WF])
 
-reg('C07', ['u_dfa', 'u_mode', 'u_iter'],
-    'spans non-empty (l >= 1), start/end are byte offsets of char indices of the input (boff), start >= previous end (cursor monotone), Some(m) => cursor strictly advances, None => cursor at end and stays there (no_more); absence of panics while scanning = every index/unwrap/overflow/slice-boundary obligation of the functions under contract',
-    [WF, CLS, ITER, UTF8, 'building (establishing wf, not panicking) is NOT decided: producer side is C02/C03 territory'])
+reg('C07', ['u_dfa', 'u_mode', 'u_iter', 'u_sub', 'u_mp', 'u_elim', 'u_glue'],
+    'spans non-empty (l >= 1), start/end are byte offsets of char indices of the input (boff), start >= previous end (cursor monotone), Some(m) => cursor strictly advances, None => cursor at end and stays there (no_more); absence of panics while scanning = every index/unwrap/overflow/slice-boundary obligation of the functions under contract. '
+    'Build side (partial): every index / unwrap / expect / panic! / overflow obligation and the termination of the build functions under contract (closure layer, multi-pattern union, epsilon-elimination worklists, lookahead glue: units U-sub, U-mp, U-elim, U-glue) is discharged for automata that fit the 32-bit state ids: the four panic!("State .. not found") / "NFA for target state not found" sites and `.expect("NFA not found")` are unreachable, the worklists terminate',
+    [WF, CLS, ITER, UTF8, 'build side NOT decided for: Minimizer (index-heavy, C03 not applicable), regex-syntax parser, ScannerImpl::try_from / CompiledScannerMode (establishing wf of the scanner from the compiled automata), Nfa::try_from_ast is covered by C02/C15 (unit U-nfa: overflow obligations under th_fits); size preconditions th_fits / mp_fits (automata within 32-bit state ids) are assumed, beyond them ids wrap (C17)'])
 reg('C09', ['u_iter', 'u_api'],
     'position(o): line = 1 + number of line breaks before o and column = o - line start + 1 whenever all line starts up to o are recorded (complete_upto), or the permitted same-line alternative right after a line break; next_match/advance_to record every line start of the consumed region; set_offset recomputes last_char; merge keeps line_offsets sorted, duplicate free, true line starts',
     [ITER, UTF8, 'WithPositions::next itself (generic over the inner iterator) is not under contract; its two calls are position(m.start()) and position(m.end()) after next()'])
